@@ -410,8 +410,9 @@ func runCase(t *testing.T, w *world, cfg config, ops []op) ([]op, []string) {
 		case "resolve":
 			rctx, cancel := context.WithTimeout(ctx, 20*time.Second)
 			res, err := sys.ns.Resolve(rctx, w.real(t, *o.P), namesys.ResolveWithDepth(o.Depth))
+			timedOut := rctx.Err() != nil
 			cancel()
-			if rctx.Err() != nil && errors.Is(err, context.DeadlineExceeded) {
+			if timedOut {
 				t.Fatalf("resolve of %s (depth %d) did not terminate", w.str(*o.P), o.Depth)
 			}
 			ps := "None"
@@ -606,10 +607,11 @@ func (g *gen) terminates(cfg config, sh *shadow, p mpath) bool {
 			}
 			p = sh.val[p.Root.ID]
 		case "dns":
-			found := false
+			found, id := false, p.Root.ID
 			for _, e := range cfg.DNS {
-				if e.D == p.Root.ID {
+				if e.D == id {
 					p, found = e.V, true
+					break
 				}
 			}
 			if !found {
@@ -646,10 +648,13 @@ func (g *gen) history(regime string) (config, []op) {
 				v = g.mutPath()
 			}
 			lastVal[k] = v
-			eol++
+			eol += 2
 			o := op{Kind: "publish", K: k, V: &v, TTL: g.ttl(cache), EOL: eol}
-			if g.coin(0.04) && eol > 2 {
-				o.EOL = eol - 2 // an EOL earlier than an earlier publish: routing may refuse the record
+			if g.coin(0.04) && eol > 4 {
+				// an EOL earlier than that of an earlier publish: routing may refuse the record.
+				// Odd, hence never equal to another EOL of the history (a tie on sequence and
+				// EOL is decided by comparing record bytes, which the model does not follow).
+				o.EOL = eol - 3
 			}
 			ops = append(ops, o)
 			if g.coin(0.65) { // read your publish
@@ -674,7 +679,7 @@ func (g *gen) history(regime string) (config, []op) {
 				v = old
 			}
 			lastVal[k] = v
-			eol++
+			eol += 2
 			ops = append(ops, op{Kind: "publish", K: k, V: &v, TTL: g.ttl(cache), EOL: eol, Seq: new(uint64)})
 		}
 	}
